@@ -41,8 +41,12 @@ C12(e) ==
             /\ LoadOK(e.cfg, e.ref, e.post)                              \* content is exactly what the input denotes
             /\ e.psize = Len(e.post)
 
+\* C15 in states reached by a load: Size() = len(Values()) (= len(Keys()))
+C15(e) == (e.op \in {"FromJSON", "Unmarshal"} /\ e.panic = FALSE /\ e.obsbad = FALSE) =>
+            /\ e.psize >= 0 /\ e.nvals = e.psize /\ (e.nkeys >= 0 => e.nkeys = e.psize)
 Obl(p, e) ==
   CASE p = "C11" -> C11(e)
+    [] p = "C15" -> C15(e)
     [] p = "C12" -> C12(e)
     [] p = "C17" -> e.panic = FALSE /\ e.timeout = FALSE /\ e.out = 0
 
